@@ -162,6 +162,24 @@ func variantsWorker(req N) (resp N) {
 	}
 	// CRLF line endings everywhere
 	try("crlf", 0, strings.ReplaceAll(base, "\n", "\r\n"))
+	// ... also of a program that holds a RAW string spanning lines (its value is part of the tree)
+	ext := base + "\nzq := `l1\nl2\n\n  l4`\nzq\n"
+	if extTree, extCode, extErr := treeAndCode(ext); !strings.HasPrefix(extErr, "parse:") && !strings.HasPrefix(extErr, "gopanic") {
+		tried++
+		tree, code, errText := treeAndCode(strings.ReplaceAll(ext, "\n", "\r\n"))
+		verdict := ""
+		switch {
+		case strings.HasPrefix(errText, "parse:") || strings.HasPrefix(errText, "gopanic"):
+			verdict = "rejected: " + errText
+		case tree != extTree:
+			verdict = "tree differs"
+		case code != extCode:
+			verdict = "bytecode differs"
+		}
+		if verdict != "" && len(bad) < 10 {
+			bad = append(bad, N{"kind": "crlf", "gap": 0, "verdict": verdict, "src": strings.ReplaceAll(ext, "\n", "\r\n")})
+		}
+	}
 	// random multi-gap combination
 	rnd := rand.New(rand.NewSource(int64(req["seed"].(float64))))
 	for rep := 0; rep < 3; rep++ {
@@ -229,6 +247,45 @@ func diagWorker(req N) (resp N) {
 		b := scoped[rnd.Intn(len(scoped))]
 		if ev := diagnose("\n\n\t" + b + "\n"); ev != nil {
 			events = append(events, ev)
+		}
+	}
+	// a character no token starts with, put at a token gap of the (valid) program: the lexical error is reported at
+	// THAT character (Lexer.tla: the text before it tokenises; the driver knows the line and column it wrote to)
+	if n := int(req["n"].(float64)); n > 0 && len(r.Toks) > 2 {
+		for rep := 0; rep < 2; rep++ {
+			gi := 1 + rnd.Intn(len(r.Toks)-1)
+			bad := []string{"~", "$", "@", "^", "3abc", "09", "0x1g"}[rnd.Intn(7)]
+			marker := "\x00MARK\x00"
+			src := r.SourceWith(func(i int, t ast.Tok) (string, bool) {
+				if i != gi {
+					return "", false
+				}
+				return t.Sep + " " + marker + " ", true
+			})
+			if k := strings.Index(src, marker); k >= 0 {
+				before := src[:k]
+				line := strings.Count(before, "\n") + 1
+				col := len([]rune(before[strings.LastIndex(before, "\n")+1:])) + 1
+				if ev := diagnose(strings.Replace(src, marker, bad, 1)); ev != nil && ev["stage"] == "parse" {
+					ev["want_line"], ev["want_col"] = line, col
+					events = append(events, ev)
+				}
+			}
+		}
+	}
+	// an if / switch whose condition is missing at a line end, in every place that takes an expression; a "%" in a
+	// broken template string (the message quotes the source: no "%!" of a misused format may appear)
+	if n := int(req["n"].(float64)); n > 0 {
+		base := r.Source()
+		if !strings.HasSuffix(base, "\n") {
+			base += "\n"
+		}
+		nocond := []string{"print(1, if\n2)", "print(1, switch\n2)", "[1, 2, if\n3]", "xq := 1\nreturn if", "func fq() {\n\treturn switch\n\t1\n}",
+			"fq := func(a = if\n xq {}", "xq := '100% of {total'", "xq := 'rate: {1 + %b}'", "xq := '{ %'", "mq := {\"k\": [1, if\n2]}"}
+		if ev := diagnose(base + nocond[rnd.Intn(len(nocond))]); ev != nil {
+			events = append(events, ev)
+		} else {
+			events = append(events, N{"src": run.Cps(base), "stage": "accepted", "haspos": false})
 		}
 	}
 	// ONE compiler for several inputs (a REPL): after an input that failed to compile - inside a template string, a
@@ -350,7 +407,7 @@ func diagnose(src string) (ev N) {
 			ev["ecol"] = pe.EndPosition().ColumnNumber()
 			ev["quoted"] = run.Cps(pe.SourceCode())
 		}
-		_ = err.Error()
+		ev["garbled"] = strings.Contains(err.Error(), "%!") && !strings.Contains(src, "%!")
 		var fe errz.FriendlyError
 		if errors.As(err, &fe) {
 			ev["friendly"] = len(fe.FriendlyErrorMessage()) > 0
